@@ -191,6 +191,8 @@ class ScriptedPort(ebbfake.PortExtras):
                 self.hand = ("empty", None)
             elif d == "non_ebb":
                 self.hand = ("line", "Hello, I am not the board you are looking for")
+            elif d == "other_versioned":
+                self.hand = ("line", "ACME PenPlotter Firmware Version 3.1.0")       # a version field, even a high one, does not make it an EBB
             elif d in DEV_VERSIONS and d not in ("ebb_ok", "ebb_late"):
                 self.hand = ("line", VERSION_LINE % DEV_VERSIONS[d])
             elif d == "ebb_noversion":
